@@ -55,6 +55,40 @@ def c09_violations(plan: dict, result: dict):
     return out
 
 
+def c09_silent_failures(res0: dict, res1: dict):
+    """Reported success must mean the output is there. An operation of the
+    faulted pass in which a write-side fault fired and which nevertheless ended
+    'ok' must have produced, for every file the same operation wrote in the
+    fault-free pass, the same bytes (a retry that really succeeds is fine; a
+    swallowed error that leaves the file missing or torn is not)."""
+    out = []
+    by_i = {r["i"]: r for r in res0["history"]}
+    for rec in res1["history"]:
+        if rec["op"] not in ("render", "cli") or rec.get("outcome") != "ok":
+            continue
+        fired = [f for f in (rec.get("fired") or []) if f["kind"] != "crash" and f["seam"] in ("open_w", "write", "close_w")]
+        if not fired:
+            continue
+        r0 = by_i.get(rec["i"])
+        if r0 is None or r0.get("outcome") != "ok":
+            continue
+        o0, o1 = r0.get("outputs") or {}, rec.get("outputs") or {}
+        for base in r0.get("wrote") or []:
+            if base in o0 and o1.get(base) != o0[base]:
+                out.append(
+                    {
+                        "sig": "silent-failure@%s:%s" % (rec["op"], fired[0]["kind"]),
+                        "op_index": rec["i"],
+                        "op": rec["op"],
+                        "outcome": "ok",
+                        "msg": "%s fired at %s but the operation reported success; %s is %s" % (fired[0]["kind"], fired[0]["seam"], base, "missing" if base not in o1 else "different from the fault-free result"),
+                        "expect": {base: o0[base]},
+                    }
+                )
+                break
+    return out
+
+
 # ------------------------------------------------------------------------ C18
 def history_signature(history, upto: int) -> str:
     """Hash of what preceded op `upto` in its process (since the last restart)."""
